@@ -504,6 +504,18 @@ func main() {
 							return
 						}
 					}
+					if gi%7 == 5 {
+						// ... and with negative ids (placeholder ids of editors)
+						g.Off = -1000
+						for _, rq := range reqs {
+							sc := drainScenario(g, rq)
+							sc.Family = "drain-negative-ids"
+							if !yield(&sc) {
+								return
+							}
+						}
+						g.Off = 0
+					}
 					if gi%7 == 3 {
 						// the same graph with ids beyond 40 bits
 						g.Off = 1<<40 + 1<<35
